@@ -267,7 +267,7 @@ def gen_subst(rnd):
     call = '\\yby'
     if kind == 'opt':
         if rnd.random() < .6:
-            o = rnd.choice(['W', '{W]W}', 'W{W]}', '{[}W', '{W[W]W}', 'W W', '{]}'])
+            o = rnd.choice(['W', '{W]W}', 'W{W]}', '{[}W', '{W[W]W}', 'W W', '{]}', '', ''])      # ('' = explicitly empty option)
             while 'W' in o:
                 o = o.replace('W', W('o'), 1)
             call += '[' + o + ']'
